@@ -41,12 +41,14 @@ def compoundOps : List String := ["+=", "-=", "*=", "/=", "**=", "//=", "%=", "&
 def reserved : List String := ["if", "else", "return", "raise", "yield", "defer"]
 
 /-- rendering of atoms with a postfix call or index: `f(x)` ↦ `f.call(x)`, `a[0]` ↦ `a.at([0])` -/
+def isNumLit (s : String) : Bool := !s.isEmpty && s.toList.all Char.isDigit
+
 def renderAtom (s : String) : String :=
   match s.splitOn "(" with
-  | [f, rest] => if isIdent f && !rest.isEmpty then f ++ ".call(" ++ rest else s
+  | [f, rest] => if (isIdent f || isNumLit f) && !rest.isEmpty then f ++ ".call(" ++ rest else s
   | _ =>
     match s.splitOn "[" with
-    | [a, rest] => if isIdent a && !rest.isEmpty then a ++ ".at([" ++ rest ++ ")" else s
+    | [a, rest] => if (isIdent a || isNumLit a) && !rest.isEmpty then a ++ ".at([" ++ rest ++ ")" else s
     | _ => s
 
 def renderChainTok (tok : String) : String :=
